@@ -48,7 +48,8 @@ Definition veq (a b : value) : bool :=
   end.
 
 (* ---------- closures of the mini-language (defunctionalised; the yarel text is in IterLang.render) ---------- *)
-Inductive fn : Type := AddK (k : Z) | MulK (k : Z) | Tag (t : list byte) | ConstK (k : Z).
+Inductive fn : Type := AddK (k : Z) | MulK (k : Z) | Tag (t : list byte) | ConstK (k : Z)
+  | PressF (lo : Z) (n : nat).   (* |x| pid(x, lo, n): builds n other ranges lo..lo+1, .., lo..lo+n, returns x *)
 Inductive pr : Type := IsEven | GtK (k : Z) | NeV (v : value) | TrueP | FalseP.
 Inductive rd : Type := RSum | RCount.
 
@@ -64,6 +65,7 @@ Definition apply_fn (f : fn) (v : value) : value :=
   | Tag t, VNum z => VStr (num_text z ++ t)
   | Tag t, VStr s => VStr (s ++ t)
   | ConstK k, _ => VNum k
+  | PressF _ _, _ => v            (* a range value is immutable: building other ranges changes nothing *)
   | _, _ => v
   end.
 
@@ -131,6 +133,11 @@ Inductive iobj : Type :=
 | OBag (items : list value)                   (* user iterable Bag: iter() returns a separate cursor (Script); no next() *)
 | OVBag (vid : nat)                           (* user iterable VBag: iter() returns the built-in iterator of its inner vec *)
 | OChained (vid : nat) (k : Z)                (* user iterable Chained: iter() returns inner.iter().filter(even).map(+k) *)
+| ORange (a e : Z)                            (* a Range VALUE a..e held in a variable / vec / field: iter() makes a RangeIter.
+                                                 vm.rs build_range hands out ObjRange objects from an 8-entry cache keyed by
+                                                 (begin, end); an ObjRange is never written after its creation (C16 models the
+                                                 cache's bookkeeping), so the object a variable or a RangeIter holds keeps its
+                                                 bounds however many other ranges are built *)
 | OMap (f : fn) (inner : nat)                 (* MapIter { iterable, func } *)
 | OFilter (p : pr) (inner : nat).             (* FilterIter { iterable, predicate } *)
 
@@ -163,6 +170,7 @@ Definition static (o : iobj) : iobj :=
   | OBag items => OBag items
   | OVBag vid => OVBag vid
   | OChained vid k => OChained vid k
+  | ORange a e => ORange a e
   | OMap f i => OMap f i
   | OFilter p i => OFilter p i
   end.
@@ -197,7 +205,7 @@ Fixpoint obj_next (fuel : nat) (st : store) (id : nat) : option (value * store) 
         let '(r, c) := vec_next cards pos in Some (or_stop r, set_obj st id (ODeck cards c))
       (* these iterables have no next(): AttributeError in the language; every consumer of core.yl calls iter()
          first (side condition C18_side_consumers_call_iter over gen/IterFns.v), so this is never reached *)
-      | OBag _ | OVBag _ | OChained _ _ => Some (VNil, st)
+      | OBag _ | OVBag _ | OChained _ _ | ORange _ _ => Some (VNil, st)
       | OMap f inner =>
         match obj_next k st inner with
         | None => None
@@ -223,6 +231,7 @@ Definition obj_iter (st : store) (id : nat) : nat * store :=
     let '(a, s1) := alloc_obj st (OVecIter vid 0) in
     let '(c, s2) := alloc_obj s1 (OFilter IsEven a) in
     alloc_obj s2 (OMap (AddK k) c)
+  | Some (ORange a e) => alloc_obj st (ORangeIter e (fst (range_new a e)) (snd (range_new a e)))
   | _ => (id, st)
   end.
 
